@@ -1,0 +1,199 @@
+//go:build verif
+
+// Contracts for ring state merging (C03, C04, C05), checked by /verif/govc (comment-only file).
+
+package ring
+
+//@ # fieldsEq: equality of two ring entries on every field except Tokens; sameEntry adds element-wise token equality
+//@ pred fieldsEq(a InstanceDesc, b InstanceDesc) = a.Addr == b.Addr && a.Timestamp == b.Timestamp && a.State == b.State && a.Zone == b.Zone &&
+//@      a.RegisteredTimestamp == b.RegisteredTimestamp && a.Id == b.Id && a.ReadOnlyUpdatedTimestamp == b.ReadOnlyUpdatedTimestamp &&
+//@      a.ReadOnly == b.ReadOnly && same(a.Versions, b.Versions)
+//@ pred sameEntry(a InstanceDesc, b InstanceDesc) = fieldsEq(a, b) && a.Tokens == b.Tokens
+//@
+//@ func tokensEqual
+//@   property C03 C05
+//@   ensures result <==> lhs == rhs
+//@   loop 0 invariant 0 <= i && i <= len(lhs) && len(lhs) == len(rhs) && (forall j int :: 0 <= j && j < i ==> lhs[j] == rhs[j])
+//@   pure
+//@
+//@ # the per-entry join of the property statement: newer timestamp wins; at equal timestamps a removal wins
+//@ pred takesOther(t InstanceDesc, o InstanceDesc) = o.Timestamp > t.Timestamp || (o.Timestamp == t.Timestamp && t.State != LEFT && o.State == LEFT)
+//@
+//@ # normalizeIngestersMap / resolveConflicts: only their frames are assumed here (token lists may change, nothing else)
+//@ assume func normalizeIngestersMap
+//@   ensures forall n string :: (in(n, inputRing.Ingesters) <==> in(n, old(inputRing).Ingesters)) && (in(n, inputRing.Ingesters) ==> fieldsEq(inputRing.Ingesters[n], old(inputRing).Ingesters[n]))
+//@   ensures forall n string :: in(n, inputRing.Ingesters) && inputRing.Ingesters[n].State == LEFT ==> len(inputRing.Ingesters[n].Tokens) == 0
+//@   ensures forall n string :: in(n, inputRing.Ingesters) ==> sortedStrict(inputRing.Ingesters[n].Tokens)
+//@   ensures !isnil(inputRing.Ingesters) || isnil(old(inputRing).Ingesters)
+//@ assume func resolveConflicts
+//@   ensures forall n string :: (in(n, normalizedIngesters) <==> in(n, old(normalizedIngesters))) && (in(n, normalizedIngesters) ==> fieldsEq(normalizedIngesters[n], old(normalizedIngesters)[n]))
+//@   ensures isnil(normalizedIngesters) == isnil(old(normalizedIngesters))
+//@ assume func conflictingTokensExist
+//@   modifies nothing
+//@
+//@ func NewDesc
+//@   property C03
+//@   ensures result != nil && !isnil(result.Ingesters) && len(result.Ingesters) == 0 && (forall n string :: !in(n, result.Ingesters))
+//@
+//@ func Desc.mergeWithTime
+//@   property C03 C04 C05
+//@   requires !isnil(d.Ingesters)
+//@   ghost var d0 map[string]InstanceDesc = d.Ingesters
+//@   ghost var upd set[string] = emptyset("")
+//@   ghost var nu int = 0
+//@   ghost var uj total[string]int = havoc
+//@   ghost var upd1 set[string] = emptyset("")
+//@   # entries the incoming descriptor speaks about: the join rule decides, field for field
+//@   # (get(d0, n) is the entry as the code reads it: the zero entry when absent)
+//@   ensures  join: r1 == nil && mergeable != nil && other != nil ==> (forall n string :: in(n, other.Ingesters) ==>
+//@              (takesOther(get(d0, n), other.Ingesters[n]) ? in(n, d.Ingesters) && fieldsEq(d.Ingesters[n], other.Ingesters[n]) && upd[n]
+//@                  : (in(n, d.Ingesters) <==> in(n, d0)) && (in(n, d0) ==> fieldsEq(d.Ingesters[n], d0[n])) && !upd[n]))
+//@   # entries it does not mention: untouched when gossiping; turned into tombstones stamped 'now' on a local update
+//@   ensures  absent_gossip: r1 == nil && mergeable != nil && other != nil && !localCAS ==> (forall n string :: !in(n, other.Ingesters) ==> (in(n, d.Ingesters) <==> in(n, d0)) && (in(n, d0) ==> fieldsEq(d.Ingesters[n], d0[n])))
+//@   ensures  absent_local: r1 == nil && mergeable != nil && other != nil && localCAS ==> (forall n string :: !in(n, other.Ingesters) && in(n, d0) && d0[n].State != LEFT ==>
+//@              in(n, d.Ingesters) && d.Ingesters[n].State == LEFT && d.Ingesters[n].Timestamp == unix(now) && upd[n])
+//@   # no change reported  <=>  nothing was updated, and then the content is untouched
+//@   ensures  nochange: r1 == nil && mergeable != nil && other != nil && r0 == nil ==> (forall n string :: !upd[n]) && same(d.Ingesters, d0)
+//@   # the reported change holds exactly the updated entries with their new content
+//@   ensures  change: r1 == nil && r0 != nil ==> istype(r0, "*Desc") && (forall n string :: upd[n] ==> in(n, astype(r0, "*Desc").Ingesters) && astype(r0, "*Desc").Ingesters[n] == d.Ingesters[n])
+//@   loop 0 invariant !isnil(thisIngesterMap) && same(otherIngesterMap, other.Ingesters) && nu == len(updated)
+//@   loop 0 invariant forall n string :: !$visited[n] ==> (in(n, thisIngesterMap) <==> in(n, d0)) && (in(n, d0) ==> thisIngesterMap[n] == d0[n]) && !upd[n]
+//@   loop 0 invariant forall n string :: $visited[n] ==> (takesOther(get(d0, n), otherIngesterMap[n])
+//@                  ? in(n, thisIngesterMap) && fieldsEq(thisIngesterMap[n], otherIngesterMap[n]) && upd[n]
+//@                  : (in(n, thisIngesterMap) <==> in(n, d0)) && (in(n, d0) ==> thisIngesterMap[n] == d0[n]) && !upd[n])
+//@   loop 0 invariant forall j int :: 0 <= j && j < len(updated) ==> upd[updated[j]]
+//@   loop 0 invariant (forall n string :: !upd[n]) <==> len(updated) == 0
+//@   loop 0 invariant forall n string :: upd[n] ==> 0 <= uj[n] && uj[n] < len(updated) && updated[uj[n]] == n
+//@   loop 0 end upd := len(updated) > nu ? setadd(upd, $k) : upd
+//@   loop 0 end uj := len(updated) > nu ? store(uj, $k, len(updated) - 1) : uj
+//@   loop 0 end nu := len(updated)
+//@   loop 1 invariant !isnil(thisIngesterMap) && nu == len(updated) && same(otherIngesterMap, other.Ingesters)
+//@   loop 1 invariant forall n string :: in(n, thisIngesterMap) <==> in(n, $coll)
+//@   loop 1 invariant forall n string :: in(n, $coll) && (in(n, otherIngesterMap) || !$visited[n]) ==> thisIngesterMap[n] == $coll[n]
+//@   loop 1 invariant forall n string :: !in(n, otherIngesterMap) && $visited[n] ==>
+//@              ($coll[n].State != LEFT ? thisIngesterMap[n].State == LEFT && thisIngesterMap[n].Timestamp == unix(now) && upd[n] : thisIngesterMap[n] == $coll[n])
+//@   loop 1 invariant forall j int :: 0 <= j && j < len(updated) ==> upd[updated[j]]
+//@   loop 1 invariant (forall n string :: !upd[n]) <==> len(updated) == 0
+//@   loop 1 invariant forall n string :: upd[n] && !in(n, otherIngesterMap) ==> $visited[n]
+//@   loop 1 init upd1 := upd
+//@   loop 1 invariant forall n string :: in(n, otherIngesterMap) ==> (upd[n] <==> upd1[n])
+//@   loop 1 invariant forall n string :: upd[n] ==> 0 <= uj[n] && uj[n] < len(updated) && updated[uj[n]] == n
+//@   loop 1 end upd := len(updated) > nu ? setadd(upd, $k) : upd
+//@   loop 1 end uj := len(updated) > nu ? store(uj, $k, len(updated) - 1) : uj
+//@   loop 1 end nu := len(updated)
+//@   loop 2 invariant out != nil && !isnil(out.Ingesters)
+//@   loop 2 invariant forall j int :: 0 <= j && j < $i ==> in(updated[j], out.Ingesters)
+//@   loop 2 invariant forall n string :: in(n, out.Ingesters) ==> out.Ingesters[n] == get(thisIngesterMap, n)
+//@
+//@ # ---- C03: the per-entry join is a semilattice operation (idempotent, commutative, associative) -------------
+//@ pure func joinI(a InstanceDesc, b InstanceDesc) InstanceDesc = takesOther(a, b) ? b : a
+//@ # "each (entry, timestamp) pair denotes one content": equal timestamps mean equal content, or one side is the removal
+//@ pred oneContent(a InstanceDesc, b InstanceDesc) = a.Timestamp == b.Timestamp ==> (same(a, b) || (a.State == LEFT && b.State != LEFT) || (a.State != LEFT && b.State == LEFT))
+//@
+//@ lemma joinIdempotent(a InstanceDesc, b InstanceDesc)
+//@   property C03
+//@   ensures same(joinI(a, a), a) && same(joinI(joinI(a, b), b), joinI(a, b))
+//@
+//@ lemma joinCommutative(a InstanceDesc, b InstanceDesc)
+//@   property C03
+//@   requires oneContent(a, b)
+//@   ensures same(joinI(a, b), joinI(b, a))
+//@
+//@ lemma joinAssociative(a InstanceDesc, b InstanceDesc, c InstanceDesc)
+//@   property C03
+//@   requires oneContent(a, b) && oneContent(b, c) && oneContent(a, c)
+//@   ensures same(joinI(joinI(a, b), c), joinI(a, joinI(b, c)))
+//@
+//@ # newer wins; at equal timestamps a removal wins; otherwise the receiver's entry stays
+//@ lemma joinRule(a InstanceDesc, b InstanceDesc)
+//@   property C03 C04
+//@   ensures b.Timestamp > a.Timestamp ==> same(joinI(a, b), b)
+//@   ensures b.Timestamp < a.Timestamp ==> same(joinI(a, b), a)
+//@   ensures b.Timestamp == a.Timestamp && b.State == LEFT && a.State != LEFT ==> same(joinI(a, b), b)
+//@
+//@ # ---- C04: a tombstone is never replaced by an entry that is not newer (no resurrection) -------------------
+//@ lemma tombstoneWins(t InstanceDesc, e InstanceDesc)
+//@   property C04
+//@   requires t.State == LEFT && e.Timestamp <= t.Timestamp
+//@   ensures same(joinI(t, e), t) && (oneContent(t, e) ==> same(joinI(e, t), t))
+//@
+//@ func Desc.RemoveTombstones
+//@   property C04
+//@   requires !isnil(d.Ingesters)
+//@   ensures  kept: forall n string :: in(n, d.Ingesters) <==> (in(n, old(d).Ingesters) && !(old(d).Ingesters[n].State == LEFT && (iszero(limit) || old(d).Ingesters[n].Timestamp * 1000000000 < ns(limit))))
+//@   ensures  same: forall n string :: in(n, d.Ingesters) ==> d.Ingesters[n] == old(d).Ingesters[n]
+//@   loop 0 invariant !isnil(d.Ingesters) && total >= 0 && removed >= 0
+//@   loop 0 invariant forall n string :: !$visited[n] ==> (in(n, d.Ingesters) <==> in(n, $coll))
+//@   loop 0 invariant forall n string :: $visited[n] ==> (in(n, d.Ingesters) <==> !($coll[n].State == LEFT && (iszero(limit) || $coll[n].Timestamp * 1000000000 < ns(limit))))
+//@   loop 0 invariant forall n string :: in(n, d.Ingesters) ==> in(n, $coll) && d.Ingesters[n] == $coll[n]
+//@
+//@ # ---- partition ring descriptor merge (C03, C04) ----------------------------------------------------------
+//@ pred takesState(t PartitionDesc, o PartitionDesc) = o.StateTimestamp > t.StateTimestamp || (o.StateTimestamp == t.StateTimestamp && o.State == PartitionDeleted && t.State != PartitionDeleted)
+//@ pred takesLock(t PartitionDesc, o PartitionDesc) = o.StateChangeLockedTimestamp > t.StateChangeLockedTimestamp
+//@ pred takesOwner(t OwnerDesc, o OwnerDesc) = o.UpdatedTimestamp > t.UpdatedTimestamp || (o.UpdatedTimestamp == t.UpdatedTimestamp && o.State == OwnerDeleted && t.State != OwnerDeleted)
+//@ # the merged partition entry as the statement prescribes it (id and tokens immutable; state and lock joined independently)
+//@ pred joinedPartition(r PartitionDesc, t PartitionDesc, o PartitionDesc) =
+//@      r.Id == t.Id && r.Tokens == t.Tokens &&
+//@      (takesState(t, o) ? r.State == o.State && r.StateTimestamp == o.StateTimestamp : r.State == t.State && r.StateTimestamp == t.StateTimestamp) &&
+//@      (takesLock(t, o) ? r.StateChangeLocked == o.StateChangeLocked && r.StateChangeLockedTimestamp == o.StateChangeLockedTimestamp
+//@                       : r.StateChangeLocked == t.StateChangeLocked && r.StateChangeLockedTimestamp == t.StateChangeLockedTimestamp)
+//@
+//@ func NewPartitionRingDesc
+//@   property C03
+//@   ensures result != nil && !isnil(result.Partitions) && !isnil(result.Owners) && len(result.Partitions) == 0 && len(result.Owners) == 0
+//@
+//@ func PartitionRingDesc.mergeWithTime
+//@   property C03 C04
+//@   requires !isnil(m.Partitions) && !isnil(m.Owners)
+//@   ghost var p0 map[int32]PartitionDesc = m.Partitions
+//@   ghost var o0 map[string]OwnerDesc = m.Owners
+//@   ghost var p1 map[int32]PartitionDesc = m.Partitions
+//@   ghost var cp1 map[int32]PartitionDesc = m.Partitions
+//@   ensures  partitions: r1 == nil && mergeable != nil && other != nil ==> (forall id int32 :: in(id, other.Partitions) ==> in(id, m.Partitions) &&
+//@              (in(id, p0) ? joinedPartition(m.Partitions[id], p0[id], other.Partitions[id]) : m.Partitions[id] == other.Partitions[id]))
+//@   ensures  partitions_absent_gossip: r1 == nil && mergeable != nil && other != nil && !localCAS ==> (forall id int32 :: !in(id, other.Partitions) ==> (in(id, m.Partitions) <==> in(id, p0)) && (in(id, p0) ==> m.Partitions[id] == p0[id]))
+//@   ensures  partitions_absent_local: r1 == nil && mergeable != nil && other != nil && localCAS ==> (forall id int32 :: !in(id, other.Partitions) && in(id, p0) && p0[id].State != PartitionDeleted ==>
+//@              in(id, m.Partitions) && m.Partitions[id].State == PartitionDeleted && m.Partitions[id].StateTimestamp == unix(now))
+//@   ensures  owners: r1 == nil && mergeable != nil && other != nil ==> (forall id string :: in(id, other.Owners) ==>
+//@              (takesOwner(get(o0, id), other.Owners[id]) ? in(id, m.Owners) && m.Owners[id] == other.Owners[id] : (in(id, m.Owners) <==> in(id, o0)) && (in(id, o0) ==> m.Owners[id] == o0[id])))
+//@   ensures  owners_absent_gossip: r1 == nil && mergeable != nil && other != nil && !localCAS ==> (forall id string :: !in(id, other.Owners) ==> (in(id, m.Owners) <==> in(id, o0)) && (in(id, o0) ==> m.Owners[id] == o0[id]))
+//@   ensures  owners_absent_local: r1 == nil && mergeable != nil && other != nil && localCAS ==> (forall id string :: !in(id, other.Owners) && in(id, o0) && o0[id].State != OwnerDeleted ==>
+//@              in(id, m.Owners) && m.Owners[id].State == OwnerDeleted && m.Owners[id].UpdatedTimestamp == unix(now))
+//@   ensures  nochange: r1 == nil && mergeable != nil && other != nil && r0 == nil ==>
+//@              (forall id int32 :: (in(id, m.Partitions) <==> in(id, p0)) && (in(id, p0) ==> m.Partitions[id] == p0[id])) &&
+//@              (forall id string :: (in(id, m.Owners) <==> in(id, o0)) && (in(id, o0) ==> m.Owners[id] == o0[id]))
+//@   ensures  change: r1 == nil && r0 != nil ==> istype(r0, "*PartitionRingDesc") &&
+//@              (forall id int32 :: in(id, astype(r0, "*PartitionRingDesc").Partitions) ==> in(id, m.Partitions) && astype(r0, "*PartitionRingDesc").Partitions[id] == m.Partitions[id]) &&
+//@              (forall id int32 :: in(id, m.Partitions) && (!in(id, p0) || m.Partitions[id] != p0[id]) ==> in(id, astype(r0, "*PartitionRingDesc").Partitions)) &&
+//@              (forall id string :: in(id, astype(r0, "*PartitionRingDesc").Owners) ==> in(id, m.Owners) && astype(r0, "*PartitionRingDesc").Owners[id] == m.Owners[id]) &&
+//@              (forall id string :: in(id, m.Owners) && (!in(id, o0) || m.Owners[id] != o0[id]) ==> in(id, astype(r0, "*PartitionRingDesc").Owners))
+//@   loop 0 invariant change != nil && !isnil(change.Partitions) && !isnil(change.Owners) && len(change.Owners) == 0 && !isnil(m.Partitions) && same(m.Owners, o0)
+//@   loop 0 invariant forall id int32 :: !$visited[id] ==> (in(id, m.Partitions) <==> in(id, p0)) && (in(id, p0) ==> m.Partitions[id] == p0[id]) && !in(id, change.Partitions)
+//@   loop 0 invariant forall id int32 :: $visited[id] ==> in(id, m.Partitions) && (in(id, p0) ? joinedPartition(m.Partitions[id], p0[id], $coll[id]) : m.Partitions[id] == $coll[id])
+//@   loop 0 invariant forall id int32 :: in(id, change.Partitions) ==> in(id, m.Partitions) && change.Partitions[id] == m.Partitions[id]
+//@   loop 0 invariant forall id int32 :: in(id, m.Partitions) && (!in(id, p0) || m.Partitions[id] != p0[id]) ==> in(id, change.Partitions)
+//@   loop 0 invariant (len(change.Partitions) == 0) <==> (forall id int32 :: !in(id, change.Partitions))
+//@   loop 1 invariant change != nil && !isnil(change.Partitions) && !isnil(change.Owners) && len(change.Owners) == 0 && !isnil(m.Partitions) && same(m.Owners, o0)
+//@   loop 1 invariant forall id int32 :: in(id, m.Partitions) <==> in(id, $coll)
+//@   loop 1 invariant forall id int32 :: in(id, $coll) && (in(id, other.Partitions) || !$visited[id]) ==> m.Partitions[id] == $coll[id]
+//@   loop 1 invariant forall id int32 :: !in(id, other.Partitions) && $visited[id] ==> ($coll[id].State != PartitionDeleted ? m.Partitions[id].State == PartitionDeleted && m.Partitions[id].StateTimestamp == unix(now) : m.Partitions[id] == $coll[id])
+//@   loop 1 invariant forall id int32 :: in(id, change.Partitions) ==> in(id, m.Partitions) && change.Partitions[id] == m.Partitions[id]
+//@   loop 1 invariant forall id int32 :: in(id, m.Partitions) && (!in(id, p0) || m.Partitions[id] != p0[id]) ==> in(id, change.Partitions)
+//@   loop 1 invariant (len(change.Partitions) == 0) <==> (forall id int32 :: !in(id, change.Partitions))
+//@   loop 2 init p1 := m.Partitions
+//@   loop 2 init cp1 := change.Partitions
+//@   loop 2 invariant same(m.Partitions, p1) && same(change.Partitions, cp1)
+//@   loop 2 invariant change != nil && !isnil(change.Partitions) && !isnil(change.Owners) && !isnil(m.Owners)
+//@   loop 2 invariant forall id string :: !$visited[id] ==> (in(id, m.Owners) <==> in(id, o0)) && (in(id, o0) ==> m.Owners[id] == o0[id]) && !in(id, change.Owners)
+//@   loop 2 invariant forall id string :: $visited[id] ==> (takesOwner(get(o0, id), $coll[id]) ? in(id, m.Owners) && m.Owners[id] == $coll[id] : (in(id, m.Owners) <==> in(id, o0)) && (in(id, o0) ==> m.Owners[id] == o0[id]))
+//@   loop 2 invariant forall id string :: in(id, change.Owners) ==> in(id, m.Owners) && change.Owners[id] == m.Owners[id]
+//@   loop 2 invariant forall id string :: in(id, m.Owners) && (!in(id, o0) || m.Owners[id] != o0[id]) ==> in(id, change.Owners)
+//@   loop 2 invariant (len(change.Owners) == 0) <==> (forall id string :: !in(id, change.Owners))
+//@   loop 3 invariant same(m.Partitions, p1) && same(change.Partitions, cp1)
+//@   loop 3 invariant change != nil && !isnil(change.Partitions) && !isnil(change.Owners) && !isnil(m.Owners)
+//@   loop 3 invariant forall id string :: in(id, m.Owners) <==> in(id, $coll)
+//@   loop 3 invariant forall id string :: in(id, $coll) && (in(id, other.Owners) || !$visited[id]) ==> m.Owners[id] == $coll[id]
+//@   loop 3 invariant forall id string :: !in(id, other.Owners) && $visited[id] ==> ($coll[id].State != OwnerDeleted ? m.Owners[id].State == OwnerDeleted && m.Owners[id].UpdatedTimestamp == unix(now) : m.Owners[id] == $coll[id])
+//@   loop 3 invariant forall id string :: in(id, change.Owners) ==> in(id, m.Owners) && change.Owners[id] == m.Owners[id]
+//@   loop 3 invariant forall id string :: in(id, m.Owners) && (!in(id, o0) || m.Owners[id] != o0[id]) ==> in(id, change.Owners)
+//@   loop 3 invariant (len(change.Owners) == 0) <==> (forall id string :: !in(id, change.Owners))
